@@ -10,7 +10,7 @@ Theorems about `Ecal.Debug` (model of `interpreter/debug.go`).
   old code: `lost_resume_reachable` (negative witness);
 * decision functions: `suspends_at_active_breakpoint`, `step_semantics_stepin`,
   `step_semantics_stepover`, `step_semantics_stepout`, and — for a thread in ANY debugging
-  situation — `suspends_whenever_arriving` with `line_tracks_last_visit`
+  situation — `suspends_whenever_arriving_partial` with `line_tracks_last_visit`
   (needs fix "stepping honours break points" in `VisitState`);
 * "observer only": in the model the debugger cannot touch the evaluator's state BY TYPE — a remark
   (`example`), not an obligation. For the Go CODE "same result, log and variables" is NOT a theorem:
@@ -290,10 +290,13 @@ example : ∃ (d : Dbg) (l : Loc), d.is = none ∧ bpActive d.bps l = true :=
 
 
 
-/-- **Attaching never crashes the program thread.** No visit function sets `crashed`: the one Go panic
-the model knew (`VisitStepOutState` popping an empty call stack — the debugger was attached while the
-call was running) is guarded; the return of such a call is ignored. -/
-theorem never_crashes (r : Run) (e : Ev) : (stepEv r e).crashed = r.crashed := by
+/-- REMARK, true BY CONSTRUCTION (no model function writes `crashed` any more; not an obligation): the one
+Go panic the model knew (`VisitStepOutState` popping an empty call stack — the debugger was attached while
+the call was running) is guarded in the code. NOT modelled: the sanity assertion of `VisitStepOutState`
+(`errorutil.AssertTrue`: the top of the recorded call stack equals the returning call) — the model keeps
+only the call DEPTH; a debugger detached inside one call and re-attached inside another sees a stale
+stack and panics there (declared assumption: enter/exit are properly nested while attached). -/
+example (r : Run) (e : Ev) : (stepEv r e).crashed = r.crashed := by
   have hv : ∀ (r : Run) (l : Loc), (visitState r l).crashed = r.crashed := by
     intro r l
     unfold visitState visitFresh
@@ -427,7 +430,7 @@ theorem step_semantics_stepin (r : Run) (is : IState) (hal : Alive r)
 (`enter`, a balanced body at any nesting without active break points, its `exit`) is passed
 without suspension — and the next node visited afterwards (on whatever line) suspends the
 thread at depth `n`. (Break points inside the call DO stop the thread:
-`suspends_whenever_arriving`.) -/
+`suspends_whenever_arriving_partial`.) -/
 theorem step_semantics_stepover (r : Run) (is : IState) (hal : Alive r)
     (his : r.d.is = some is) (hcmd : is.cmd = .stepOver)
     (l l' : Loc) (e : Bool) (body : List Ev) (hb : Balanced body)
@@ -586,12 +589,18 @@ theorem line_tracks_last_visit (r : Run) (l : Loc) (hal : Alive r) (is' : IState
       · exact park_line _ _ _ _ (by simp) h'
       · simp_all
 
-/-- **Suspension whenever the thread arrives at an active break point** — for a thread in
-ANY debugging situation (not interrogated, resumed, stepping in / over / out at any depth),
-except one that `StopThreads` has told to end: if the node lies on a line with an active
-break point and the thread comes from a different line (`line_tracks_last_visit`), it
-reports suspension there. -/
-theorem suspends_whenever_arriving (r : Run) (l : Loc) (hal : Alive r)
+/-- **Suspension whenever the thread arrives at an active break point** — PARTIAL.
+FULL statement wanted (not proved): for every trace `t` from a state without interrogation, if the
+position of the last node the thread executed before `visit l` differs from `l`, `l` has an active break
+point and the thread was not told to end, then `runTrace r (t ++ [visit l])` suspends at `l`.
+PROVED here: the single-step statement with the hypothesis on the MODEL FIELD `is.pos` (`is.pos ≠ l`), for
+a thread in any debugging situation (not interrogated, resumed, stepping in / over / out at any depth)
+except one that `StopThreads` has told to end. What ties `is.pos` to the trace: `line_tracks_last_visit`
+(after every `visit` an existing state carries that node's position); `enter` / `exit` / `finished` move
+`is.pos` only together with a reported suspension at that position (error stop at a returning call,
+stop before a call) — by inspection of `stepInState` / `stepOutState` after fix
+"error-pass-keeps-position", not by a theorem. MISSING: the induction over traces with a `lastAt` function. -/
+theorem suspends_whenever_arriving_partial (r : Run) (l : Loc) (hal : Alive r)
     (hbp : bpActive r.d.bps l = true)
     (hfrom : ∀ is, r.d.is = some is → is.pos ≠ l ∧ is.cmd ≠ .kill) :
     (stepEv r (.visit l)).susp = r.susp ++ [l] := by
